@@ -187,6 +187,10 @@ func dethunkMapBreadthFirst(m map[string]interface{}, dethunkQueue *dethunkQueue
 		if f, ok := v.(func() interface{}); ok {
 			m[k] = f()
 		}
+		// a deferred value may itself resolve to a deferred value
+		for f, ok := m[k].(func() interface{}); ok; f, ok = m[k].(func() interface{}) {
+			m[k] = f()
+		}
 		switch val := m[k].(type) {
 		case map[string]interface{}:
 			dethunkQueue.push(func() { dethunkMapBreadthFirst(val, dethunkQueue) })
@@ -199,6 +203,10 @@ func dethunkMapBreadthFirst(m map[string]interface{}, dethunkQueue *dethunkQueue
 func dethunkListBreadthFirst(list []interface{}, dethunkQueue *dethunkQueue) {
 	for i, v := range list {
 		if f, ok := v.(func() interface{}); ok {
+			list[i] = f()
+		}
+		// a deferred value may itself resolve to a deferred value
+		for f, ok := list[i].(func() interface{}); ok; f, ok = list[i].(func() interface{}) {
 			list[i] = f()
 		}
 		switch val := list[i].(type) {
@@ -219,6 +227,10 @@ func dethunkMapDepthFirst(m map[string]interface{}) {
 		if f, ok := v.(func() interface{}); ok {
 			m[k] = f()
 		}
+		// a deferred value may itself resolve to a deferred value
+		for f, ok := m[k].(func() interface{}); ok; f, ok = m[k].(func() interface{}) {
+			m[k] = f()
+		}
 		switch val := m[k].(type) {
 		case map[string]interface{}:
 			dethunkMapDepthFirst(val)
@@ -231,6 +243,10 @@ func dethunkMapDepthFirst(m map[string]interface{}) {
 func dethunkListDepthFirst(list []interface{}) {
 	for i, v := range list {
 		if f, ok := v.(func() interface{}); ok {
+			list[i] = f()
+		}
+		// a deferred value may itself resolve to a deferred value
+		for f, ok := list[i].(func() interface{}); ok; f, ok = list[i].(func() interface{}) {
 			list[i] = f()
 		}
 		switch val := list[i].(type) {
